@@ -40,10 +40,11 @@ import (
 // Stream is one scripted stream: Msgs is a string over u (update without a
 // prefix) o p q (update whose prefix.target is the target's OWN name / the name
 // of the NEXT target of the case, managed or already removed / a name nobody
-// manages) s (sync) e (error response) n (nil response) w (3 ms pause before
-// the next answer);
-// End is what Recv does afterwards: err, eof, or hang (block until the
-// stream's context is done).
+// manages) s (sync) e (error response) n (nil response) w / W (3 ms / 30 ms pause
+// before the next answer);
+// End is what Recv does afterwards: err, eof, canceled / deadline (an error
+// value context.Canceled / DeadlineExceeded although the stream's context is
+// alive), or hang (block until the stream's context is done).
 type Stream struct {
 	Msgs string `json:"msgs"`
 	End  string `json:"end"`
@@ -62,6 +63,12 @@ type TargetSpec struct {
 	Open      []bool   `json:"open,omitempty"`
 	Send      []bool   `json:"send,omitempty"`
 	Streams   []Stream `json:"streams,omitempty"`
+	// DupAddr: every address line is listed twice, once with a chain suffix
+	// (";x;y"): still Hops unique next hops.
+	DupAddr bool `json:"dup_addr,omitempty"`
+	// TimeoutRaw, if set, is the literal receive_timeout meta value (may be
+	// unparsable: the manager-wide timeout then applies).
+	TimeoutRaw string `json:"timeout_raw,omitempty"`
 	// DialBlock[k] / OpenBlock[k]: the k-th dial / stream open does not answer
 	// but BLOCKS until its context ends (dial timeout, Reconnect, Remove) and
 	// then fails with the context's error.
@@ -72,6 +79,10 @@ type TargetSpec struct {
 	// real-connection-manager family knows dialer names: "" and "alt" exist,
 	// anything else is an unknown dialer.
 	Dialers []string `json:"dialers,omitempty"`
+	// Reenter: the N-th callback of kind Cb calls Manager.Reconnect(name) itself
+	// before it returns (an application reacting to what it receives), unless
+	// the control goroutine is in the middle of a call of its own.
+	Reenter *Gate `json:"reenter,omitempty"`
 	// Gate: the N-th callback of kind Cb (Connect Update Sync Reset CE ME) for
 	// this name blocks until the harness releases it (op "overlap").
 	Gate *Gate `json:"gate,omitempty"`
@@ -119,6 +130,11 @@ type Case struct {
 	// Gaps[i]: microseconds from the return of each MonitorError callback in
 	// Obs[i] to the goroutine's next letter of the same incarnation.
 	Gaps [][]int64 `json:"gaps,omitempty"`
+	// MaxWaitUs[i]: the longest time one Recv call of Obs[i] took.  When the
+	// receive timeout is at least 40 ms and no Recv took a quarter of it, the
+	// timer cannot have been due in that run and the model is told "no timeout"
+	// (a timer that is not re-armed per Recv then shows as an unexplained cancel).
+	MaxWaitUs []int64 `json:"max_wait_us,omitempty"`
 }
 
 // ---------------------------------------------------------------------------
@@ -148,10 +164,16 @@ type tgt struct {
 	iStream   int
 	nUpd      int64
 
+	maxWait     time.Duration // longest Recv call
 	pending     bool // inside a blocking dial / stream open
 	dialTimeout bool // Config.Timeout > 0: a blocking dial ends by itself
 	peer        string // name of the next target of the case ("" if alone)
 	incar int    // Add calls so far (selects the dialer name)
+
+	mgr      *manager.Manager
+	api      sync.Mutex // held by whoever issues API calls for this name
+	reCount  int
+	reUsed   bool
 
 	gateCount  int           // occurrences of the gated callback kind so far
 	gateClosed bool          // the gated callback is being held
@@ -450,6 +472,19 @@ func (s *stream) cancelled() (*gpb.SubscribeResponse, error) {
 }
 
 func (s *stream) Recv() (*gpb.SubscribeResponse, error) {
+	t0 := time.Now()
+	defer func() {
+		d := time.Since(t0)
+		s.t.mu.Lock()
+		if d > s.t.maxWait {
+			s.t.maxWait = d
+		}
+		s.t.mu.Unlock()
+	}()
+	return s.recv()
+}
+
+func (s *stream) recv() (*gpb.SubscribeResponse, error) {
 	for {
 		select {
 		case <-s.ctx.Done():
@@ -462,11 +497,15 @@ func (s *stream) Recv() (*gpb.SubscribeResponse, error) {
 		c := s.s.Msgs[s.i]
 		s.i++
 		switch c {
-		case 'w':
+		case 'w', 'W':
+			d := 3 * time.Millisecond
+			if c == 'W' {
+				d = 30 * time.Millisecond // longer than the short receive timeout
+			}
 			select {
 			case <-s.ctx.Done():
 				return s.cancelled()
-			case <-time.After(3 * time.Millisecond):
+			case <-time.After(d):
 			}
 			continue
 		case 'u', 'o', 'p', 'q':
@@ -507,6 +546,12 @@ func (s *stream) Recv() (*gpb.SubscribeResponse, error) {
 	case "eof":
 		s.t.ev("recv:eof", true)
 		return nil, io.EOF
+	case "canceled": // the PEER reports a cancellation; our context is alive
+		s.t.ev("recv:err", true)
+		return nil, context.Canceled
+	case "deadline":
+		s.t.ev("recv:err", true)
+		return nil, context.DeadlineExceeded
 	}
 	// hang
 	s.t.mu.Lock()
@@ -547,6 +592,31 @@ func cb(name, what string) {
 		if hold {
 			t.ev("gateC", false)
 			<-t.gateCh
+		}
+	}
+	if g := t.spec.Reenter; g != nil && t.mgr != nil {
+		kind := strings.TrimRight(what, "0123456789")
+		fire := false
+		t.mu.Lock()
+		if kind == g.Cb && !t.reUsed {
+			t.reCount++
+			if t.reCount == g.N {
+				t.reUsed, fire = true, true
+			}
+		}
+		t.mu.Unlock()
+		if fire && t.api.TryLock() {
+			t.ev("rcC", false)
+			ch := make(chan error, 1)
+			go func() { ch <- t.mgr.Reconnect(t.name) }()
+			select {
+			case err := <-ch:
+				t.ev("rcR"+pm(err == nil), false)
+			case <-time.After(hangAfter):
+				// Reconnect cannot be called from a callback: a Hang observation
+				t.ev("hang", false)
+			}
+			t.api.Unlock()
 		}
 	}
 	if t.cbDelay > 0 {
@@ -638,18 +708,19 @@ func (t *tgt) waitFor(d time.Duration, pred func() bool) bool {
 // letter, the microseconds between the two log appends.
 func gapsOf(log []string, at []time.Time) []int64 {
 	gaps := []int64{}
-	var last time.Time
-	have, xadd := false, false
+	var last, prevME, incStart time.Time
+	have, xadd, havePrev := false, false, false
+	j := 0 // failures in a row for which the backoff was certainly not reset
 	for i, e := range log {
 		switch e {
 		case "addC", "rmR+", "xadd+", "xadd-":
-			have = false
-			xadd = false
+			have, xadd, havePrev, j = false, false, false, 0
+			incStart = at[i]
 			continue
 		case "xaddC":
 			// a new monitor may start (at once, no backoff) any time from here
 			// until the call returns
-			have = false
+			have, havePrev, j = false, false, 0
 			xadd = true
 			continue
 		case "add+", "add-", "rcC", "rcR+", "rcR-", "rmC", "rmR-", "hang", "stall",
@@ -660,17 +731,47 @@ func gapsOf(log []string, at []time.Time) []int64 {
 			continue
 		}
 		if have {
-			gaps = append(gaps, at[i].Sub(last).Microseconds())
+			// the j-th delay in a row is drawn from [0.5,1.5] x min(base*1.5^j, max):
+			// report the gap scaled back to the first delay's scale, so that one
+			// bound (90% of base/2) judges every position
+			g := at[i].Sub(last).Microseconds()
+			gaps = append(gaps, g*int64(retryBase/time.Microsecond)/2/boundUs(j))
 			have = false
 		}
 		if e == "ME" {
+			// was the backoff possibly reset at this failure (attempt longer than
+			// 2*RetryMaxDelay)?  The attempt started no earlier than the previous
+			// MonitorError plus the smallest delay possible then.
+			start := incStart
+			if havePrev {
+				start = prevME.Add(time.Duration(boundUs(j)) * time.Microsecond)
+			}
+			if havePrev && at[i].Sub(start) < 2*retryMax-time.Millisecond {
+				j++
+			} else {
+				j = 0
+			}
 			last, have = at[i], true
+			prevME, havePrev = at[i], true
 		}
 	}
 	return gaps
 }
 
-func runCase(c Case, window time.Duration) ([][]string, [][]int64) {
+// boundUs: the smallest delay (microseconds) the policy can produce for the
+// j-th failure in a row since the backoff was last reset.
+func boundUs(j int) int64 {
+	iv := float64(retryBase / time.Microsecond)
+	for k := 0; k < j; k++ {
+		iv *= 1.5
+	}
+	if m := float64(retryMax / time.Microsecond); iv > m {
+		iv = m
+	}
+	return int64(iv / 2)
+}
+
+func runCase(c Case, window time.Duration) ([][]string, [][]int64, []int64) {
 	seq := atomic.AddInt64(&caseSeq, 1)
 	var cmgr manager.ConnectionManager = connMgr{}
 	if c.RealCM {
@@ -723,23 +824,39 @@ func runCase(c Case, window time.Duration) ([][]string, [][]int64) {
 	time.Sleep(window) // post-Remove listening window
 	out := make([][]string, len(ts))
 	gaps := make([][]int64, len(ts))
+	waits := make([]int64, len(ts))
 	for i, t := range ts {
 		t.mu.Lock()
 		out[i] = append([]string{}, t.log...)
 		gaps[i] = gapsOf(t.log, t.at)
+		waits[i] = t.maxWait.Microseconds()
 		t.mu.Unlock()
 		// the name stays registered: a late callback must still find its log
 	}
-	return out, gaps
+	return out, gaps, waits
 }
 
 // mayExpire: the effective receive timeout (target meta overrides the
 // manager's) is short enough to fire during a run.
-func mayExpire(c Case, sp TargetSpec) bool {
+func effTimeoutMs(c Case, sp TargetSpec) int {
 	eff := c.MgrTimeoutMs
 	if sp.TimeoutMs > 0 {
 		eff = sp.TimeoutMs
 	}
+	if sp.TimeoutRaw != "" {
+		// manager.targetRecvTimeout: a value that parses wins (even <= 0, which
+		// disables the timeout), an unparsable one falls back to the manager's
+		if d, err := time.ParseDuration(sp.TimeoutRaw); err == nil {
+			eff = int(d / time.Millisecond)
+		} else {
+			eff = c.MgrTimeoutMs
+		}
+	}
+	return eff
+}
+
+func mayExpire(c Case, sp TargetSpec) bool {
+	eff := effTimeoutMs(c, sp)
 	return eff > 0 && eff < longTimeoutMs
 }
 
@@ -747,12 +864,18 @@ func protoTarget(t *tgt) *tpb.Target {
 	p := &tpb.Target{}
 	for h := 0; h < t.spec.Hops; h++ {
 		p.Addresses = append(p.Addresses, fmt.Sprintf("addr%d:1", h))
+		if t.spec.DupAddr {
+			p.Addresses = append(p.Addresses, fmt.Sprintf("addr%d:1;x%d;y", h, h))
+		}
 	}
 	if t.spec.Creds {
 		p.Credentials = &tpb.Credentials{Username: "u", PasswordId: t.name}
 	}
 	if t.spec.TimeoutMs > 0 {
 		p.Meta = map[string]string{"receive_timeout": fmt.Sprintf("%dms", t.spec.TimeoutMs)}
+	}
+	if t.spec.TimeoutRaw != "" {
+		p.Meta = map[string]string{"receive_timeout": t.spec.TimeoutRaw}
 	}
 	if n := len(t.spec.Dialers); n > 0 {
 		k := t.incar
@@ -766,13 +889,34 @@ func protoTarget(t *tgt) *tpb.Target {
 }
 
 func control(m *manager.Manager, t *tgt, ops []Op) {
+	t.mu.Lock()
+	t.mgr = m
+	t.mu.Unlock()
 	sr := &gpb.SubscribeRequest{Request: &gpb.SubscribeRequest_Subscribe{Subscribe: &gpb.SubscriptionList{}}}
 	managed := false
 	dead := false    // a watchdog fired: stop issuing calls that may block
 	stalled := false // the stall watchdog fired: do not wait again
+	// guarded: an API call that does not return within hangAfter is a Hang
+	// observation, not a stuck harness
+	guarded := func(f func() error) (error, bool) {
+		ch := make(chan error, 1)
+		go func() { ch <- f() }()
+		select {
+		case err := <-ch:
+			return err, true
+		case <-time.After(hangAfter):
+			t.ev("hang", false)
+			dead = true
+			return nil, false
+		}
+	}
 	add := func() {
 		t.ev("addC", false)
-		err := m.Add(t.name, protoTarget(t), sr)
+		pt := protoTarget(t)
+		err, ok := guarded(func() error { return m.Add(t.name, pt, sr) })
+		if !ok {
+			return
+		}
 		t.ev("add"+pm(err == nil), false)
 		if err == nil {
 			managed = true
@@ -871,7 +1015,9 @@ func control(m *manager.Manager, t *tgt, ops []Op) {
 			}
 		}
 	}
+	t.api.Lock()
 	add()
+	t.api.Unlock()
 	for _, o := range ops {
 		if dead {
 			break
@@ -893,15 +1039,19 @@ func control(m *manager.Manager, t *tgt, ops []Op) {
 			}
 		}
 		if o.K == "overlap" && managed && gateHeld() {
+			t.api.Lock()
 			overlap(o.X)
+			t.api.Unlock()
 			continue
 		}
 		openGate() // never leave a callback held across another action
+		t.api.Lock()
 		switch o.K {
 		case "reconnect":
 			t.ev("rcC", false)
-			err := m.Reconnect(t.name)
-			t.ev("rcR"+pm(err == nil), false)
+			if err, ok := guarded(func() error { return m.Reconnect(t.name) }); ok {
+				t.ev("rcR"+pm(err == nil), false)
+			}
 		case "remove", "overlap":
 			remove()
 		case "add":
@@ -912,6 +1062,7 @@ func control(m *manager.Manager, t *tgt, ops []Op) {
 				add()
 			}
 		}
+		t.api.Unlock()
 	}
 	openGate()
 	if managed && !dead {
@@ -919,7 +1070,9 @@ func control(m *manager.Manager, t *tgt, ops []Op) {
 			t.ev("stall", false)
 		}
 		openGate()
+		t.api.Lock()
 		remove()
+		t.api.Unlock()
 	}
 	openGate()
 }
@@ -1038,8 +1191,12 @@ func caseTerm(c Case) string {
 				gs = append(gs, vh.Z(g))
 			}
 		}
+		tmoFlag := mayExpire(c, sp)
+		if eff := effTimeoutMs(c, sp); tmoFlag && eff >= 40 && i < len(c.MaxWaitUs) && c.MaxWaitUs[i]*4 < int64(eff)*1000 {
+			tmoFlag = false // no Recv came anywhere near the timeout: it cannot have been due
+		}
 		ts[i] = fmt.Sprintf("mktg %s %s %s %s %s %s", vh.Bool(sp.Creds), vh.Nat(sp.Hops),
-			vh.Bool(mayExpire(c, sp)), vh.Z(minGapUs), vh.List(gs), vh.List(evs))
+			vh.Bool(tmoFlag), vh.Z(minGapUs), vh.List(gs), vh.List(evs))
 	}
 	return vh.List(ts)
 }
@@ -1212,6 +1369,43 @@ func blockingCases() []Case {
 	return out
 }
 
+// campaignCases: inputs the code must treat like their plain counterparts
+// (duplicate / chained address lines, literal timeout meta values, peer-side
+// cancellation errors) and a slow but live stream under a receive timeout.
+func campaignCases() []Case {
+	good := []Stream{{"us", "eof"}, {"u", "hang"}}
+	slow := strings.Repeat("uw", 18) + "s" // 54 ms of 3 ms pauses under a 40 ms timeout
+	out := []Case{
+		{Targets: []TargetSpec{{Hops: 2, DupAddr: true, Dial: []bool{false, true, false, false, true, true}, Streams: good}}},
+		{Targets: []TargetSpec{{Hops: 1, DupAddr: true, Dial: []bool{false, true}, Streams: good}}, RealCM: true},
+		{Targets: []TargetSpec{{Hops: 1, TimeoutMs: 40, Streams: []Stream{{slow, "err"}, {slow, "eof"}}}}},
+		{MgrTimeoutMs: 40, Targets: []TargetSpec{{Hops: 1, Streams: []Stream{{slow, "eof"}}}}},
+		{Targets: []TargetSpec{{Hops: 1, Streams: []Stream{{"u", "deadline"}, {"s", "canceled"}, {"", "deadline"}, {"us", "eof"}}}}},
+		{Targets: []TargetSpec{{Hops: 1, TimeoutMs: tmo, Streams: []Stream{{"su", "canceled"}, {"u", "deadline"}}}}},
+		// unparsable meta: the manager-wide timeout must end the silent stream
+		{MgrTimeoutMs: tmo, Targets: []TargetSpec{{Hops: 1, TimeoutRaw: "soon", Streams: []Stream{{"u", "hang"}, {"s", "eof"}}}}},
+		// the target's own (far away) value wins over the manager-wide one
+		{MgrTimeoutMs: tmo, Targets: []TargetSpec{{Hops: 1, TimeoutMs: longTimeoutMs, Streams: []Stream{{"uWu", "eof"}, {"sWs", "err"}}}}},
+		// a zero / negative value disables the timeout for that target
+		{MgrTimeoutMs: tmo, Targets: []TargetSpec{{Hops: 1, TimeoutRaw: "0s", Streams: []Stream{{"uWu", "eof"}, {"s", "eof"}}}}},
+		{MgrTimeoutMs: tmo, Targets: []TargetSpec{{Hops: 1, TimeoutRaw: "-5ms", Streams: []Stream{{"", "hang"}, {"s", "eof"}}}},
+			Ops: []Op{{T: 0, At: 4, K: "readd"}}},
+		// many quick failures in a row: the delay must grow
+		{Targets: []TargetSpec{{Hops: 1, Dial: []bool{false, false, false, false, false, false, false, true}, Streams: good}}},
+		{Targets: []TargetSpec{{Hops: 1, Open: []bool{false, false, false, false, false, false, true}, Streams: good}}, RealCM: true},
+	}
+	// a callback that calls Reconnect for its own target before returning
+	for _, g := range []Gate{{"Connect", 1}, {"Update", 1}, {"Update", 2}, {"Sync", 1}, {"Reset", 1}, {"CE", 2}, {"ME", 1}} {
+		g2 := g
+		out = append(out, Case{Targets: []TargetSpec{{Hops: 1, Dial: []bool{false, true}, Reenter: &g2,
+			Streams: []Stream{{"usu", "eof"}, {"us", "err"}, {"u", "hang"}}}}})
+	}
+	for i := range out {
+		out[i].Family = "campaign"
+	}
+	return append(out, out...)
+}
+
 // prefixCases: updates labelled with another name (managed, removed, unknown).
 func prefixCases() []Case {
 	var out []Case
@@ -1230,7 +1424,7 @@ func prefixCases() []Case {
 }
 
 func randSpec(r *vh.Rand) TargetSpec {
-	sp := TargetSpec{Hops: 1 + r.Pick(6, 3, 1), Creds: r.Chance(1, 4)}
+	sp := TargetSpec{Hops: 1 + r.Pick(6, 3, 1), Creds: r.Chance(1, 4), DupAddr: r.Chance(1, 4)}
 	if r.Chance(1, 4) {
 		sp.TimeoutMs = tmo
 	} else if r.Chance(1, 4) {
@@ -1251,7 +1445,7 @@ func randSpec(r *vh.Rand) TargetSpec {
 		for j := 0; j < k; j++ {
 			b.WriteByte("uuuopqsssenw"[r.Intn(12)])
 		}
-		end := []string{"err", "eof", "hang"}[r.Pick(4, 4, 2)]
+		end := []string{"err", "eof", "hang", "canceled", "deadline"}[r.Pick(4, 4, 2, 1, 1)]
 		sp.Streams = append(sp.Streams, Stream{b.String(), end})
 	}
 	return sp
@@ -1299,6 +1493,10 @@ func randCase(r *vh.Rand) Case {
 				c.Ops = append(c.Ops, Op{T: i, At: at + 2 + r.Intn(8), K: "readd"})
 			}
 		}
+		if r.Chance(1, 8) {
+			cbk := []string{"Connect", "Update", "Sync", "Reset", "CE", "ME"}[r.Intn(6)]
+			c.Targets[i].Reenter = &Gate{Cb: cbk, N: 1 + r.Intn(3)}
+		}
 		if r.Chance(1, 5) {
 			cbk := []string{"Connect", "Update", "Sync", "Reset", "CE", "ME"}[r.Intn(6)]
 			c.Targets[i].Gate = &Gate{Cb: cbk, N: 1 + r.Intn(3)}
@@ -1343,6 +1541,7 @@ func nontrivial(c Case) bool {
 func canonical(c Case) string {
 	c.Obs = nil
 	c.Gaps = nil
+	c.MaxWaitUs = nil
 	c.Family = ""
 	c.Reps = 0
 	b, _ := json.Marshal(c)
@@ -1397,6 +1596,7 @@ func (e *emitter) flush() {
 func (e *emitter) runAll(cs []Case, par int) {
 	out := make([][][]string, len(cs))
 	gout := make([][][]int64, len(cs))
+	wout := make([][]int64, len(cs))
 	sem := make(chan struct{}, par)
 	var wg sync.WaitGroup
 	var stalled int64
@@ -1407,6 +1607,7 @@ func (e *emitter) runAll(cs []Case, par int) {
 			cs = cs[:i]
 			out = out[:i]
 			gout = gout[:i]
+			wout = wout[:i]
 			break
 		}
 		sem <- struct{}{}
@@ -1424,9 +1625,10 @@ func (e *emitter) runAll(cs []Case, par int) {
 				reps = 1
 			}
 			for k := 0; k < reps; k++ {
-				o, g := runCase(cs[i], e.window)
+				o, g, w := runCase(cs[i], e.window)
 				out[i] = append(out[i], o...)
 				gout[i] = append(gout[i], g...)
+				wout[i] = append(wout[i], w...)
 			}
 			for _, tr := range out[i] {
 				for _, ev := range tr {
@@ -1442,6 +1644,7 @@ func (e *emitter) runAll(cs []Case, par int) {
 		c := cs[i]
 		c.Obs = out[i]
 		c.Gaps = gout[i]
+		c.MaxWaitUs = wout[i]
 		for len(c.Obs) < len(c.Targets) || len(c.Obs)%len(c.Targets) != 0 {
 			c.Obs = append(c.Obs, []string{"hang"})
 		}
@@ -1493,7 +1696,7 @@ func main() {
 	manager.RetryRandomization = 0.5
 	manager.VerifSetSubscribeClient(openStream)
 
-	meta := vh.NewMeta("corpus cases; systematic family: single-target fault scripts (dial refusal, credentials / open / send failure, multi-hop, data then error / EOF, hang with and without receive timeout, slow live stream; seven single-target fault scripts in all, the seventh with a receive timer that is armed but cannot expire), each alone and with one Reconnect, one Remove and one Remove+Add placed at every position (quick: every second position of long logs) of the script's baseline log, a third of them with slow callbacks (a callback is logged when it returns); overlap family: two scripts x a held callback (each kind, first or second occurrence) x {Add, Remove, Reconnect} of the same name issued by a second goroutine while the first one's Remove is in progress (observed waiting inside Manager.Remove), a fifth of the random cases get such an action too; prefix family: updates whose prefix.target is the owner's name, another managed name, a removed name or an unknown name; realcm family: the Manager on the real connection.Manager with scripted dialers (unknown dialer name fixed on re-add, two targets sharing an address one of them with an unknown dialer, dial failures then success), a sixth of the random cases run on it too, an error that nothing during the call explains is reported as a stall; blocking family: dials and stream opens that only end with their context (dial blocks until Config.Timeout for k attempts then succeeds; Remove / Reconnect / Remove+Add issued during the pending call; a second target joining the pending dial; no dial timeout: only Reconnect / Remove end it), on the injected and on the real connection manager, a fifth of the random cases have a dial timeout and blocking dials; random family: 1-3 targets per manager (shared addresses), 1-6 scripted attempts each, 0-4 control actions (Reconnect, Remove, Add, Remove+Add) at random log positions, receive timeout none / 12 ms / far away, callbacks instantaneous or 100-400 us. distinct = distinct (scripts, actions); non-trivial = some target's log has a Reset and a ConnectError")
+	meta := vh.NewMeta("corpus cases; systematic family: single-target fault scripts (dial refusal, credentials / open / send failure, multi-hop, data then error / EOF, hang with and without receive timeout, slow live stream; seven single-target fault scripts in all, the seventh with a receive timer that is armed but cannot expire), each alone and with one Reconnect, one Remove and one Remove+Add placed at every position (quick: every second position of long logs) of the script's baseline log, a third of them with slow callbacks (a callback is logged when it returns); overlap family: two scripts x a held callback (each kind, first or second occurrence) x {Add, Remove, Reconnect} of the same name issued by a second goroutine while the first one's Remove is in progress (observed waiting inside Manager.Remove), a fifth of the random cases get such an action too; prefix family: updates whose prefix.target is the owner's name, another managed name, a removed name or an unknown name; realcm family: the Manager on the real connection.Manager with scripted dialers (unknown dialer name fixed on re-add, two targets sharing an address one of them with an unknown dialer, dial failures then success), a sixth of the random cases run on it too, an error that nothing during the call explains is reported as a stall; blocking family: dials and stream opens that only end with their context (dial blocks until Config.Timeout for k attempts then succeeds; Remove / Reconnect / Remove+Add issued during the pending call; a second target joining the pending dial; no dial timeout: only Reconnect / Remove end it), on the injected and on the real connection manager, a fifth of the random cases have a dial timeout and blocking dials; campaign family: duplicate and chained address lines, literal receive_timeout meta values (unparsable, zero, negative, far away next to a manager-wide timeout), peer-side context.Canceled / DeadlineExceeded as Recv errors, a slow live stream under a 40 ms timeout (the model is told 'no timeout' when no Recv took a quarter of it), seven quick failures in a row (each backoff gap is judged against the smallest delay possible at its position); random family: 1-3 targets per manager (shared addresses), 1-6 scripted attempts each, 0-4 control actions (Reconnect, Remove, Add, Remove+Add) at random log positions, receive timeout none / 12 ms / far away, callbacks instantaneous or 100-400 us. distinct = distinct (scripts, actions); non-trivial = some target's log has a Reset and a ConnectError")
 	meta.Samples = []interface{}{} // never null in meta.json
 	window := 30 * time.Millisecond
 	par := 8
@@ -1550,7 +1753,7 @@ func main() {
 	var sys []Case
 	for _, sp := range systematicScripts() {
 		base := Case{Family: "systematic", Targets: []TargetSpec{sp}}
-		obs, _ := runCase(base, 0)
+		obs, _, _ := runCase(base, 0)
 		l := gorLen(obs[0])
 		if l > 60 {
 			l = 60
@@ -1590,6 +1793,9 @@ func main() {
 		rc = append(rc, realCMCases()...)
 		rc = append(rc, realCMCases()...)
 	}
+	cc := campaignCases()
+	e.runAll(cc, par)
+	meta.Extra["campaign_cases"] = len(cc)
 	bl := blockingCases()
 	if o.Thorough() {
 		bl = append(bl, blockingCases()...)
